@@ -22,7 +22,7 @@ namespace GscribModel.BuilderTie
 /-- the builder object a model value stands for (nothing written yet) -/
 def absB (b : B) : BSt :=
   { state := absG b, _distance_mode := bif b.rel then .RELATIVE else .ABSOLUTE, _current_axes := b.axes, _current_params := b.params,
-    out := [] }
+    _hooks := b.hooks, out := [], calls := [] }
 
 def partCodes : Part → List String
   | .instr c m _ => [(tableLookup c m).getD "?"]
@@ -31,6 +31,9 @@ def partWords : Part → List (String × Rat)
   | .instr _ _ ws => ws
   | .words ws => ws
   | .tword n => [("T", (n : Rat))]
+  | .gcode _ _ ws => ws
+  | .ainstr _ _ _ ws => ws
+  | .comment => []
 /-- a translated statement as (instructions of the source table, words) -/
 def conv (s : SStmt) : List String × List (String × Rat) := (s.flatMap partCodes, s.flatMap partWords)
 /-- a model statement, the same way -/
